@@ -38,30 +38,31 @@ type ExecResult struct {
 
 // Stats is the measured coverage of an exploration.
 type Stats struct {
-	Scenario      string         `json:"scenario"`
-	Bound         int            `json:"bound"`
+	Scenario string `json:"scenario"`
+	Bound    int    `json:"bound"`
 	// BoundCompleted is the largest deviation bound whose exploration finished.
-	BoundCompleted int `json:"bound_completed"`
-	Executions    int            `json:"executions"`
-	States        int            `json:"states"`
-	Transitions   int            `json:"transitions"`
-	Pruned        int            `json:"pruned_nodes"`
-	MaxDepth      int            `json:"max_depth"`
-	Outcomes      int            `json:"distinct_outcomes"`
-	DetReruns     int            `json:"determinism_reruns"`
-	Exhaustive    bool           `json:"exhaustive"`
-	HorizonHits   int            `json:"horizon_hits"`
+	BoundCompleted        int  `json:"bound_completed"`
+	Executions            int  `json:"executions"`
+	States                int  `json:"states"`
+	Transitions           int  `json:"transitions"`
+	Pruned                int  `json:"pruned_nodes"`
+	MaxDepth              int  `json:"max_depth"`
+	Outcomes              int  `json:"distinct_outcomes"`
+	DetReruns             int  `json:"determinism_reruns"`
+	NondetViolationReruns int  `json:"nondeterministic_violation_reruns,omitempty"`
+	Exhaustive            bool `json:"exhaustive"`
+	HorizonHits           int  `json:"horizon_hits"`
 	// ObservedRetries counts executions discarded because a code-made choice
 	// differed from the replayed one; UnobservedAlternatives counts alternatives
 	// of such choices that never showed up within the retry bound.
-	ObservedRetries        int `json:"observed_choice_retries,omitempty"`
-	UnobservedAlternatives int `json:"unobserved_alternatives,omitempty"`
-	DevHistogram  map[string]int `json:"executions_by_deviation_count"`
-	outcomes      map[[16]byte]bool
-	SampleTrace   []string `json:"sample_trace,omitempty"`
-	sampleDevs    int
-	ViolationList []Found `json:"violations,omitempty"`
-	KnownList     []Found `json:"known,omitempty"`
+	ObservedRetries        int            `json:"observed_choice_retries,omitempty"`
+	UnobservedAlternatives int            `json:"unobserved_alternatives,omitempty"`
+	DevHistogram           map[string]int `json:"executions_by_deviation_count"`
+	outcomes               map[[16]byte]bool
+	SampleTrace            []string `json:"sample_trace,omitempty"`
+	sampleDevs             int
+	ViolationList          []Found `json:"violations,omitempty"`
+	KnownList              []Found `json:"known,omitempty"`
 }
 
 // Found is a violation with the schedule that produced it.
@@ -261,6 +262,13 @@ func (e *Explorer) explore(prefix []int, depth int) {
 			}
 			e.Stats.DetReruns++
 			if !reflect.DeepEqual(x.Trace, y.Trace) || x.Outcome != y.Outcome || !sameViolations(x.Violations, y.Violations) {
+				if unknown > 0 && samePropertyViolated(x.Violations, y.Violations) {
+					// The code under test itself behaves nondeterministically on this
+					// schedule (e.g. map iteration order), but every replay violates
+					// the same property: the violation stands.
+					e.Stats.NondetViolationReruns++
+					continue
+				}
 				panic(EngineError{fmt.Sprintf("nondeterministic replay in scenario %s picks %v:\n--- first\n%s\n--- second\n%s\noutcomes %q vs %q", e.Scenario, picks, strings.Join(x.Trace, "\n"), strings.Join(y.Trace, "\n"), x.Outcome, y.Outcome)})
 			}
 		}
@@ -371,6 +379,26 @@ func picksOf(x *ExecResult) []int {
 		n--
 	}
 	return out[:n]
+}
+
+// samePropertyViolated reports whether every property violated in a is also
+// violated in b (and a is not empty).
+func samePropertyViolated(a, b []Violation) bool {
+	if len(a) == 0 {
+		return false
+	}
+	for _, v := range a {
+		found := false
+		for _, w := range b {
+			if w.Property == v.Property {
+				found = true
+			}
+		}
+		if !found {
+			return false
+		}
+	}
+	return true
 }
 
 func sameViolations(a, b []Violation) bool {
